@@ -51,6 +51,15 @@ func init() {
 	generators["stalediag"] = genStaleDiag
 	generators["holddown"] = genHoldDown
 	generators["busypromote"] = genBusyPromote
+	generators["giveupprobe"] = genGiveUpProbe
+	generators["stalestamp"] = genStaleStamp
+	generators["refuseddelete"] = genRefusedDelete
+	generators["bigprio"] = genBigPrio
+	generators["latesuccess"] = genLateSuccess
+	generators["closewatchlate"] = genCloseWatchLate
+	generators["reconnectrenew"] = genReconnectRenew
+	generators["sharedround"] = genSharedRound
+	generators["latedeleteack"] = genLateDeleteAck
 	generators["slowphases"] = genSlowPhases
 	generators["twoinflight"] = genTwoInFlight
 	generators["outage"] = genOutage
@@ -1418,6 +1427,38 @@ func genLateAck(r rng, k int) *Spec {
 }
 
 // ---------------------------------------------------------------------------
+// latesuccess: a refresh is applied by the store, but its (positive) answer takes longer than
+// the refresh time-out - it arrives while the NEXT refresh is waiting for its own answer; from
+// that refresh on the store says nothing at all. The answer that came too late belongs to an
+// attempt that has already been counted as failed: it does not restart the count. H is small
+// against the time-out (1 s), so that a fourth time-out overshoots 3 H + 3 time-outs.
+// ---------------------------------------------------------------------------
+
+// LateSuccessTotal is the size of the enumeration.
+func LateSuccessTotal() int { return 2 * 3 }
+
+func genLateSuccess(r rng, k int) *Spec {
+	idx := k % LateSuccessTotal()
+	h := []time.Duration{100 * ms, 200 * ms}[idx%2]
+	idx /= 2
+	late := []time.Duration{1200 * ms, 1500 * ms, 1800 * ms}[idx%3]
+	s := &Spec{TTL: 100 * h, NoPreempt: true, Tags: []string{"c03", "err-timeout", "latesuccess"}}
+	s.Lat = Latency{Max: r.pickD(0, 2*ms)}
+	s.Hang = 5 * sec
+	s.Insts = mkInsts(1, 1, h)
+	s.Breaks = []BreakSpec{{Name: "ls", Client: "i0", Op: "Update", Nth: 4, Phase: "resp", Armed: true}}
+	s.Actions = append(s.Actions,
+		Action{At: 10 * ms, Kind: "start", Inst: "i0"},
+		Action{At: 20 * ms, Kind: "waitbreak", Break: "ls", D: 30 * sec},
+		Action{Chain: true, Kind: "rule", Rule: &FaultRule{Client: "i0", Op: "Update", Kind: "hang", Hang: 5 * sec, Err: "timeout"}},
+		Action{After: late, Kind: "release", Break: "ls"},
+	)
+	s.Duration = 5*h + 10*sec
+	s.Sample = sampleFor(h)
+	return s
+}
+
+// ---------------------------------------------------------------------------
 // sinkrace: a heartbeat tick is preempted at one of its in-library sites; meanwhile a
 // demotion that leaves the record alone (failed validation read, grace expiry) starts
 // on another goroutine and is held inside the (slow) user metrics sink, i.e. in the
@@ -2029,6 +2070,130 @@ func genLongProbe(r rng, k int) *Spec {
 }
 
 // ---------------------------------------------------------------------------
+// refuseddelete: the store refuses (or loses the answer to, or sits on) the Delete of a
+// graceful shutdown - after the ownership read went well. The term is over whatever becomes of
+// the key: OnDemote is owed, and the instance started again is promoted for a new term after it.
+// ---------------------------------------------------------------------------
+
+// RefusedDeleteTotal is the size of the enumeration.
+func RefusedDeleteTotal() int { return 4 * 2 * 2 }
+
+func genRefusedDelete(r rng, k int) *Spec {
+	idx := k % RefusedDeleteTotal()
+	fault := idx % 4
+	idx /= 4
+	wait := idx%2 == 0
+	idx /= 2
+	h := []time.Duration{200 * ms, 1 * sec}[idx%2]
+	s := &Spec{TTL: 3 * h, NoPreempt: true, Tags: []string{"lifecycle", "refuseddelete"}}
+	s.Lat = Latency{Max: r.pickD(0, 3*ms)}
+	s.Hang = 2 * sec
+	s.Insts = mkInsts(1, 1, h)
+	switch fault {
+	case 0:
+		s.Rules = append(s.Rules, FaultRule{Client: "i0", Op: "Delete", Kind: "err", Err: "timeout"})
+	case 1:
+		s.Rules = append(s.Rules, FaultRule{Client: "i0", Op: "Delete", Kind: "err", Err: "noresponders"})
+	case 2:
+		s.Rules = append(s.Rules, FaultRule{Client: "i0", Op: "Delete", Kind: "acklost", Hang: 300 * ms})
+	default:
+		s.Rules = append(s.Rules, FaultRule{Client: "i0", Op: "Delete", Kind: "hang", Hang: 300 * ms})
+	}
+	s.Actions = append(s.Actions, Action{At: 10 * ms, Kind: "start", Inst: "i0"},
+		Action{At: 2*sec + h/3, Kind: "stop", Inst: "i0", Stop: &StopVariant{DeleteKey: true, Wait: wait, Timeout: 5 * sec}},
+		Action{After: ms, Kind: "waitapi", Inst: "i0", D: 8 * sec},
+		Action{After: 100 * ms, Kind: "start", Inst: "i0"})
+	s.Duration = 2*sec + 3*s.TTL + 3*sec
+	s.Sample = sampleFor(h)
+	return s
+}
+
+// ---------------------------------------------------------------------------
+// stalestamp: a short outage while leading (disconnect, reconnect 50 ms later: verified, kept),
+// and more than a grace period later another reconnect notification with no disconnect before
+// it (a duplicate from the client library, a flap the disconnect handler of which was lost) - or
+// first a disconnect that is answered at once. The record is intact throughout: whatever the
+// instance remembers of the first outage, the leader keeps leadership.
+// ---------------------------------------------------------------------------
+
+// StaleStampTotal is the size of the enumeration.
+func StaleStampTotal() int { return 3 * 2 * 2 }
+
+func genStaleStamp(r rng, k int) *Spec {
+	idx := k % StaleStampTotal()
+	gk := idx % 3
+	idx /= 3
+	h := []time.Duration{200 * ms, 1 * sec}[idx%2]
+	idx /= 2
+	second := []string{"R", "DR"}[idx%2]
+	grace := []time.Duration{0, 2 * h, 10 * h}[gk]
+	G := grace
+	if G == 0 {
+		G = 3 * h
+		if G < 5*sec {
+			G = 5 * sec
+		}
+	}
+	s := &Spec{TTL: 5 * h, NoPreempt: true, Tags: []string{"connection", "stalestamp", second}}
+	s.Lat = Latency{Max: r.pickD(0, 3*ms)}
+	s.Insts = mkInsts(1, 1, h)
+	s.Insts[0].Conn = true
+	s.Insts[0].Grace = grace
+	t := 1*sec + h/3
+	s.Actions = append(s.Actions,
+		Action{At: 5 * ms, Kind: "start", Inst: "i0"},
+		Action{At: t, Kind: "conn", Inst: "i0", Val: "D"},
+		Action{At: t + 50*ms, Kind: "conn", Inst: "i0", Val: "R"},
+	)
+	t2 := t + G + 1*sec
+	if second == "DR" {
+		s.Actions = append(s.Actions, Action{At: t2 - 20*ms, Kind: "conn", Inst: "i0", Val: "D"})
+	}
+	s.Actions = append(s.Actions, Action{At: t2, Kind: "conn", Inst: "i0", Val: "R"})
+	s.Duration = t2 + 3*sec + 2*h
+	s.Sample = sampleFor(h)
+	return s
+}
+
+// ---------------------------------------------------------------------------
+// giveupprobe: the application gives up on a validation whose read is parked at the store: it
+// cancels the call's context (a plain cancellable context, or a request context that also
+// carries a deadline far away) 20 / 150 ms into the call; the store answers - with the
+// instance's own, valid record - 200 ms after that. A call that is still there to answer
+// "true" ignored the cancellation.
+// ---------------------------------------------------------------------------
+
+// GiveUpProbeTotal is the size of the enumeration.
+func GiveUpProbeTotal() int { return 2 * 2 * 2 * 2 }
+
+func genGiveUpProbe(r rng, k int) *Spec {
+	idx := k % GiveUpProbeTotal()
+	kind := []string{"cancelmid", "deadlinecancel"}[idx%2]
+	idx /= 2
+	orDemote := idx%2 == 1
+	idx /= 2
+	phase := []string{"req", "resp"}[idx%2]
+	idx /= 2
+	after := []time.Duration{20 * ms, 150 * ms}[idx%2]
+	h := r.pickD(500*ms, 1*sec)
+	s := &Spec{TTL: 5 * h, NoPreempt: true, Tags: []string{"giveupprobe", kind, phase}}
+	s.Lat = Latency{Min: ms, Max: r.pickD(2*ms, 10*ms)}
+	s.Insts = mkInsts(1, 1, h)
+	s.Breaks = []BreakSpec{{Name: "gp", Client: "i0", Op: "Get", Nth: 1, Phase: phase}}
+	s.Actions = append(s.Actions,
+		Action{At: 10 * ms, Kind: "start", Inst: "i0"},
+		Action{At: 2*sec + h/3, Kind: "arm", Break: "gp"},
+		Action{Chain: true, Kind: "validate", Inst: "i0", Val: kind, D: after, OrDemote: orDemote},
+		Action{After: ms, Kind: "waitbreak", Break: "gp", D: 5 * sec},
+		Action{After: after + 200*ms, Kind: "release", Break: "gp"},
+		Action{After: ms, Kind: "waitapi", Inst: "i0", D: 5 * sec},
+	)
+	s.Duration = 2*sec + 6*h
+	s.Sample = sampleFor(h)
+	return s
+}
+
+// ---------------------------------------------------------------------------
 // ownprefix: somebody replaces the leader's record by bytes that BEGIN like (or contain, or
 // wrap) the leader's own well-formed record - own id, current token - but are malformed or
 // foreign as a whole; the leader validates at once (before its watch or heartbeat notices),
@@ -2431,6 +2596,57 @@ func genDupAcquire(r rng, k int) *Spec {
 }
 
 // ---------------------------------------------------------------------------
+// sharedround: no faults, every store operation below H/2 (H = 2 s). The leader leaves; the
+// follower's first Create takes 650 ms to reach the store, so the periodic check starts a second
+// acquisition round next to the first. Should the instance ever report a SECOND successful
+// acquisition for that one vacancy (two rounds credited with one write), that report is slow
+// (the log sink takes a while); meanwhile the instance is shut down gracefully, a peer takes the
+// key, and the instance is started again. Whatever the delayed round does when its log call
+// returns, it belongs to a run that is over: at most one instance reports leadership.
+// (On a tree where every round makes its own Create the second report never comes and the
+// scenario is an ordinary hand-over.)
+// ---------------------------------------------------------------------------
+
+// SharedRoundTotal is the size of the enumeration.
+func SharedRoundTotal() int { return 2 * 2 }
+
+func genSharedRound(r rng, k int) *Spec {
+	idx := k % SharedRoundTotal()
+	held := []time.Duration{650 * ms, 900 * ms}[idx%2]
+	idx /= 2
+	point := []string{"log:acquire_success", "metric:acquire:success"}[idx%2]
+	h := 2 * sec
+	s := &Spec{TTL: 3 * h, Benign: true, NoPreempt: true, Tags: []string{"lifecycle", "sharedround"}}
+	s.Lat = Latency{Min: ms, Max: r.pickD(2*ms, 10*ms)}
+	s.Insts = mkInsts(3, 1, h)
+	s.Breaks = []BreakSpec{
+		{Name: "c1", Client: "i1", Op: "Create", Nth: 1, Phase: "req"},
+		{Name: "as", Client: "i1", Op: point, Nth: 2, Phase: "sink", Armed: true},
+	}
+	s.Reactions = []Reaction{{Break: "as", Actions: []Action{
+		{Kind: "nap", D: 300 * ms},
+		{Kind: "start", Inst: "i2"},
+		{Kind: "nap", D: 300 * ms},
+		{Kind: "stop", Inst: "i1", Stop: &StopVariant{DeleteKey: true, Wait: true, Timeout: 5 * sec}},
+		{Kind: "nap", D: 10 * ms},
+		{Kind: "waitapi", Inst: "i1", D: 8 * sec},
+		{Kind: "nap", D: 900 * ms}, // i2: watch event or periodic check, jitter, Create
+		{Kind: "start", Inst: "i1"},
+		{Kind: "nap", D: 300 * ms},
+		{Kind: "release", Break: "as"},
+	}}}
+	s.Actions = append(s.Actions, Action{At: 10 * ms, Kind: "start", Inst: "i0"}, Action{At: 300 * ms, Kind: "start", Inst: "i1"},
+		Action{At: 3 * sec, Kind: "arm", Break: "c1"},
+		Action{Chain: true, Kind: "stop", Inst: "i0", Stop: &StopVariant{DeleteKey: true, Wait: true, Timeout: 5 * sec}},
+		Action{After: ms, Kind: "waitbreak", Break: "c1", D: 3 * sec},
+		Action{After: held, Kind: "release", Break: "c1"},
+		Action{At: 3*sec + 12*sec, Kind: "release", Break: "as"})
+	s.Duration = 3*sec + 16*sec
+	s.Sample = sampleFor(h)
+	return s
+}
+
+// ---------------------------------------------------------------------------
 // doublestop: a leader is stopped gracefully (DeleteKey); its Delete takes a while
 // (well under H/2). Meanwhile the same election is started again - it finds its own old
 // record and settles as a follower - and is stopped gracefully a second time. Other
@@ -2722,6 +2938,39 @@ func genNegPrio(r rng, k int) *Spec {
 }
 
 // ---------------------------------------------------------------------------
+// bigprio: priorities above 2^53 (derived from a nanosecond timestamp, a build number shifted
+// left...), where neighbouring integers are no longer neighbouring float64 values: equal
+// priorities never preempt each other, a priority lower by 50 never preempts, a priority higher
+// by 1 does - within 3 H.
+// ---------------------------------------------------------------------------
+
+// BigPrioTotal is the size of the enumeration.
+func BigPrioTotal() int { return 4 * 2 }
+
+func genBigPrio(r rng, k int) *Spec {
+	idx := k % BigPrioTotal()
+	pair := [][2]int{
+		{1<<53 + 1, 1<<53 + 1},                     // equal: never
+		{1790000000000000100, 1790000000000000050}, // challenger lower by 50: never
+		{1<<53 + 3, 1<<53 + 4},                     // challenger higher by 1: within 3 H
+		{1790000000000000001, 1790000000000000002}, // challenger higher by 1: within 3 H
+	}[idx%4]
+	idx /= 4
+	h := []time.Duration{200 * ms, 500 * ms}[idx%2]
+	s := &Spec{TTL: 3 * h, Prompt: true, Tags: []string{"priority", "bigprio"}}
+	s.Lat = Latency{Min: 0, Max: h / 20}
+	s.Watch = WatchPolicy{DelayMax: r.pickD(0, h/10)}
+	s.Insts = mkInsts(2, 1, h)
+	s.Insts[0].Priority, s.Insts[0].Takeover = pair[0], true
+	s.Insts[1].Priority, s.Insts[1].Takeover = pair[1], true
+	s.Actions = append(s.Actions, Action{At: 10 * ms, Kind: "start", Inst: "i0"},
+		Action{At: 10*ms + 2*h + r.dur(0, h), Kind: "start", Inst: "i1"})
+	s.Duration = 12 * h
+	s.Sample = sampleFor(h)
+	return s
+}
+
+// ---------------------------------------------------------------------------
 // acklosttakeover: a takeover-enabled candidate's Create is applied, but its answer is lost:
 // the call fails with a time-out some time later. Meanwhile the record it never knew about
 // has expired (or was deleted) and a lower-priority instance holds the key. The attempt goes
@@ -2912,6 +3161,80 @@ func genCloseWatchStop(r rng, k int) *Spec {
 }
 
 // ---------------------------------------------------------------------------
+// reconnectrenew: a reconnect notification reaches the leader of term N; the verification's
+// first read is slow (2 H + 300 ms). Meanwhile the record is removed, the refresh of term N is refused,
+// and the same instance wins term N+1. Then the slow read is answered and the verification goes
+// on - in term N+1. Whatever it concludes and whatever it writes, every version of the record
+// written in term N+1 carries the token of term N+1.
+// ---------------------------------------------------------------------------
+
+// ReconnectRenewTotal is the size of the enumeration.
+func ReconnectRenewTotal() int { return 2 * 2 * 2 }
+
+func genReconnectRenew(r rng, k int) *Spec {
+	idx := k % ReconnectRenewTotal()
+	h := []time.Duration{200 * ms, 500 * ms}[idx%2]
+	idx /= 2
+	phase := []string{"req", "resp"}[idx%2]
+	idx /= 2
+	gone := []string{"outdel", "outexpire"}[idx%2]
+	s := &Spec{TTL: 5 * h, NoPreempt: true, Tags: []string{"connection", "reconnectrenew", gone}}
+	s.Lat = Latency{Max: r.pickD(0, 3*ms)}
+	s.Insts = mkInsts(1, 1, h)
+	s.Insts[0].Conn = true
+	s.Insts[0].Grace = 10 * h
+	s.Breaks = []BreakSpec{{Name: "rr", Client: "i0", Op: "Get", Nth: 1, Phase: phase}}
+	t := 2*sec + h/3
+	s.Actions = append(s.Actions,
+		Action{At: 5 * ms, Kind: "start", Inst: "i0"},
+		Action{At: t, Kind: "conn", Inst: "i0", Val: "D"},
+		Action{At: t + 20*ms, Kind: "arm", Break: "rr"},
+		Action{Chain: true, Kind: "conn", Inst: "i0", Val: "R"},
+		Action{After: ms, Kind: "waitbreak", Break: "rr", D: 3 * sec},
+		Action{After: ms, Kind: gone, Inst: "g0"},
+		Action{After: 2*h + 300*ms, Kind: "release", Break: "rr"}, // (shorter than the verification's own time-out of 2 s)
+	)
+	s.Duration = t + 2*sec + 6*h + sec
+	s.Sample = sampleFor(h)
+	return s
+}
+
+// ---------------------------------------------------------------------------
+// closewatchlate: the store ends a follower's watch; the follower's fallback read is still on
+// its way to the store when the leader leaves (key deleted) and the follower itself is stopped;
+// the read is answered - "no such key" - after the stop call has returned. Whatever that answer
+// sets in motion belongs to a run that is over (run under the race detector for C20: anything it
+// touches is touched concurrently with the stop call's last steps).
+// ---------------------------------------------------------------------------
+
+// CloseWatchLateTotal is the size of the enumeration.
+func CloseWatchLateTotal() int { return 2 * 2 }
+
+func genCloseWatchLate(r rng, k int) *Spec {
+	idx := k % CloseWatchLateTotal()
+	sv := []StopVariant{{Plain: true}, {DeleteKey: false, Timeout: 5 * sec}}[idx%2]
+	idx /= 2
+	rel := []time.Duration{ms, 50 * ms}[idx%2]
+	h := r.pickD(500*ms, 1*sec)
+	s := &Spec{TTL: 5 * h, NoPreempt: true, Tags: []string{"lifecycle", "closewatchlate"}}
+	s.Lat = Latency{Min: ms, Max: r.pickD(2*ms, 5*ms)}
+	s.Insts = mkInsts(2, 1, h)
+	s.Breaks = []BreakSpec{{Name: "cw", Client: "i1", Op: "Get", Nth: 1, Phase: "req"}}
+	s.Actions = append(s.Actions, Action{At: 10 * ms, Kind: "start", Inst: "i0"}, Action{At: 300 * ms, Kind: "start", Inst: "i1"},
+		Action{At: 2*sec + h/3, Kind: "arm", Break: "cw"},
+		Action{Chain: true, Kind: "closewatch", Inst: "i1"},
+		Action{After: ms, Kind: "waitbreak", Break: "cw", D: 3 * sec},
+		Action{After: ms, Kind: "stop", Inst: "i0", Stop: &StopVariant{DeleteKey: true, Wait: true, Timeout: 5 * sec}},
+		Action{After: ms, Kind: "waitapi", Inst: "i0", D: 8 * sec},
+		Action{After: ms, Kind: "stop", Inst: "i1", Stop: &sv},
+		Action{After: ms, Kind: "waitapi", Inst: "i1", D: 8 * sec},
+		Action{After: rel, Kind: "release", Break: "cw"})
+	s.Duration = 2*sec + 4*h
+	s.Sample = sampleFor(h)
+	return s
+}
+
+// ---------------------------------------------------------------------------
 // bucketreset: an operator deletes the bucket and creates it again while an election is
 // running on it: the record is gone without a notification, the store's revisions start
 // over at 1, the watches end. The leader loses its term at its next refresh; after that the
@@ -2988,6 +3311,48 @@ func genRestartInRelease(r rng, k int) *Spec {
 		s.Actions = append(s.Actions, Action{After: 100 * ms, Kind: "start", Inst: "i1"})
 	}
 	s.Duration = 6 * h
+	s.Sample = sampleFor(h)
+	return s
+}
+
+// ---------------------------------------------------------------------------
+// latedeleteack: StopWithContext{DeleteKey} of a leader; the store applies the Delete at once
+// and sits on the answer. The stop call gives up after its time-out (300 ms) - or is still
+// waiting - when the application starts the same election again; the key is free, the new run
+// wins it and leads. Only then the answer to the old Delete arrives. Whatever the earlier
+// shutdown still does with it, the new term's leader shows itself as leader: its own id in
+// LeaderID, its token, state LEADER.
+// ---------------------------------------------------------------------------
+
+// LateDeleteAckTotal is the size of the enumeration.
+func LateDeleteAckTotal() int { return 2 * 2 * 2 }
+
+func genLateDeleteAck(r rng, k int) *Spec {
+	idx := k % LateDeleteAckTotal()
+	giveUp := idx%2 == 0 // the stop call runs into its time-out before the restart
+	idx /= 2
+	wait := idx%2 == 0
+	idx /= 2
+	h := []time.Duration{200 * ms, 1 * sec}[idx%2]
+	s := &Spec{TTL: 5 * h, NoPreempt: true, Tags: []string{"lifecycle", "latedeleteack"}}
+	s.Lat = Latency{Min: ms, Max: r.pickD(2*ms, 5*ms)}
+	s.Insts = mkInsts(1, 1, h)
+	s.Breaks = []BreakSpec{{Name: "ld", Client: "i0", Op: "Delete", Nth: 1, Phase: "resp", Armed: true}}
+	to := 5 * sec
+	if giveUp {
+		to = 300 * ms
+	}
+	s.Actions = append(s.Actions, Action{At: 10 * ms, Kind: "start", Inst: "i0"},
+		Action{At: 2*sec + h/3, Kind: "stop", Inst: "i0", Stop: &StopVariant{DeleteKey: true, Wait: wait, Timeout: to}},
+		Action{After: ms, Kind: "waitbreak", Break: "ld", D: 3 * sec})
+	if giveUp {
+		s.Actions = append(s.Actions, Action{After: ms, Kind: "waitapi", Inst: "i0", D: 3 * sec})
+	}
+	s.Actions = append(s.Actions,
+		Action{After: 10 * ms, Kind: "start", Inst: "i0"},
+		Action{After: 400 * ms, Kind: "release", Break: "ld"}, // the new run has won the key (jitter <= 100 ms)
+		Action{After: ms, Kind: "waitapi", Inst: "i0", D: 8 * sec})
+	s.Duration = 2*sec + 8*h
 	s.Sample = sampleFor(h)
 	return s
 }
